@@ -1270,6 +1270,10 @@ def method(I, f, args, kwargs, node):
                     name = "ravel"  # a flat view in index order
                 else:
                     args = [Tup(dims)]
+        if name == "ravel" and b.ndim == 1 and not isinstance(b, SymArr):
+            r = b.copy()
+            r.meta = dict(b.meta)  # already flat: the same entries in the same order, whatever is known about them included
+            return r
         if name == "ravel":
             t = ONE
             for d in b.shape:
@@ -1406,6 +1410,9 @@ def method(I, f, args, kwargs, node):
                     return I.call_package(fr, ([] if static else [b]) + list(args), kwargs, node)
         if name in ("info", "debug", "warning", "error", "critical", "exception", "setLevel"):
             return None
+        if name in ("isEnabledFor",) and b.name in ("logger",) or (name == "isEnabledFor" and "logg" in b.name.lower()):
+            # how verbose the logging system is configured is the user's choice: both answers are possible on every call
+            return I.decide("the logging system is configured to emit this level (line %s)" % getattr(node, "lineno", "?"))
         I.event("opaque-call", node, (b.name, name, args, kwargs))
         return Unknown("%s.%s()" % (b.name, name))
     return Unknown("method %s" % name)
@@ -1415,7 +1422,35 @@ def method(I, f, args, kwargs, node):
 # builtins
 
 
+def consume(x):
+    """an iterator yields its items once: after that it is empty"""
+    if isinstance(x, Tup) and x.kind == "iterator":
+        items = list(x.items)
+        del x.items[:]
+        return Tup(items, "list")
+    return x
+
+
 def builtin(I, name, args, kwargs, node, env):
+    if name in ("list", "tuple", "dict", "set", "sorted", "sum", "max", "min", "any", "all", "enumerate", "zip", "map", "reversed", "next", "iter") and any(isinstance(a, Tup) and a.kind == "iterator" for a in args):
+        args = [consume(a) for a in args]
+    if name in ("set", "frozenset") and args and isinstance(args[0], Opaque) and args[0].name == "list-of-array" and isinstance(args[0].attrs.get("of"), Arr):
+        return Opaque("set-of-array", {"of": args[0].attrs["of"]})  # the distinct values of that array, in no particular order
+    if name == "sorted" and args and isinstance(args[0], Opaque) and args[0].name == "set-of-array" and not kwargs:
+        # the distinct values in ascending order: what np.unique returns
+        src = args[0].attrs["of"]
+        flat = src if src.ndim == 1 else method(I, I_.FuncRef("method", "ravel", bound=src), [], {}, node)
+        U = np_unique(I, [flat], {}, node)
+        if isinstance(U, Arr):
+            return Opaque("list-of-array", {"of": U, "distinct_of": flat})
+    if name in ("list", "tuple") and args and isinstance(args[0], Opaque) and args[0].name == "set-of-array":
+        # a set iterates in hash order, which is ascending only for small non-negative integers that happen not to collide
+        src = args[0].attrs["of"]
+        tag = "hash_order(%s)@%s:%s" % (src.name or "?", I.cur_mod.name, node.lineno)
+        n = alg.fn("nunique", src.val if isinstance(src.val, Expr) else alg.sym(tag), integer=True, pos=True)
+        return Opaque("list-of-array", {"of": Arr((n,), alg.fn("elem", alg.sym(tag)), src.dtype, {"hash_order": True, "distinct_of": src})})
+    if name == "enumerate" and args and isinstance(args[0], Opaque) and args[0].name == "list-of-array" and len(args) == 1 and not kwargs:
+        return Opaque("enumerate-of-array", {"of": args[0].attrs["of"], "distinct_of": args[0].attrs.get("distinct_of")})
     if name == "len":
         x = args[0]
         if isinstance(x, Tup):
@@ -1476,6 +1511,12 @@ def builtin(I, name, args, kwargs, node, env):
             if len(xs) == 2:
                 d = xs[0] - xs[1]
                 poss = I.facts.possible(d)
+                # a positive integer is at least one
+                if not (poss <= {"+", "0"} or poss <= {"-", "0"}):
+                    if _scalar_dtype(d) == "int" and I_.manifest_sign(d + ONE) <= {"+"}:
+                        poss = {"+", "0"}
+                    elif _scalar_dtype(d) == "int" and I_.manifest_sign(ONE - d) <= {"+"}:
+                        poss = {"-", "0"}
                 if poss <= {"+", "0"}:
                     return xs[0] if name == "max" else xs[1]
                 if poss <= {"-", "0"}:
@@ -1553,6 +1594,14 @@ def builtin(I, name, args, kwargs, node, env):
         if isinstance(x, Tup) and x.kind != "dict" and not any(isinstance(i, GenList) for i in x.items):
             return Tup([Tup([start + alg.const(k), v]) for k, v in enumerate(x.items)], "list")
         return Unknown("enumerate")
+    if name == "filter" and len(args) == 2 and isinstance(args[1], Tup) and args[1].kind != "dict" and not any(isinstance(i, GenList) for i in args[1].items):
+        f, seq = args
+        out = []
+        for it in seq.items:
+            t = I.truth(it) if f is None else I.truth(I.call(f, [it], {}, node, env))  # filter(None, xs) keeps the truthy items
+            if t:
+                out.append(it)
+        return Tup(out, "list")
     if name == "map":
         f, seqs = args[0], args[1:]
         if seqs and all(isinstance(x, Tup) and x.kind != "dict" and not any(isinstance(i, GenList) for i in x.items) for x in seqs):
@@ -1799,6 +1848,18 @@ def np_ascontiguous(I, args, kwargs, node):
 def np_array(I, args, kwargs, node):
     x = args[0]
     dt = _dtype_arg(kwargs.get("dtype"))
+    if isinstance(x, Opaque) and x.name == "list-of-array" and isinstance(x.attrs.get("of"), Arr):
+        r = x.attrs["of"]
+        if dt and not str(dt).startswith("inherit"):
+            r = r.copy(dtype=dt)
+            r.meta = dict(x.attrs["of"].meta)
+        return r
+    if isinstance(x, Tup) and len(x.items) == 1 and isinstance(x.items[0], GenList) and isinstance(x.items[0].elem, Expr):
+        g = x.items[0]
+        inv = getattr(g, "inverse_of", None)
+        if inv is not None:
+            U, src = inv
+            return Arr((g.rng.count,), g.elem, dt or "int", {"inverse_of": (U, src)})
     if isinstance(x, Arr):
         r = x.copy() if not isinstance(x, SymArr) else x
         if dt:
@@ -1900,6 +1961,22 @@ def np_diff(I, args, kwargs, node):
             return Arr((n1,), gen(alg.fn("idx", n1, integer=True)), dt or "float", {"gen": gen})
         return Arr((n1,), Unknown("generic element of diff"), dt or "float", {"diff_of": x})
     return Unknown("np.diff")
+
+
+def np_size(I, args, kwargs, node):
+    x = args[0] if args else None
+    if isinstance(x, Arr) and x.shape is not None and len(args) == 1:
+        t = ONE
+        for d in x.shape:
+            t = t * d
+        return t
+    if isinstance(x, (Expr, bool)) or isinstance(x, str):
+        return ONE
+    if isinstance(x, I_.PyList):
+        return x.length
+    if isinstance(x, Tup) and x.kind in ("list", "tuple") and not any(isinstance(i, (Tup, I_.PyList, Arr, GenList)) for i in x.items):
+        return alg.const(len(x.items))
+    return Unknown("np.size of %r" % (x,))
 
 
 def np_ndim(I, args, kwargs, node):
@@ -2252,6 +2329,7 @@ def np_unique(I, args, kwargs, node):
     if x.shape is not None and all(dim_is_one(d) for d in x.shape):
         n = ONE  # one value has one distinct value
     U = Arr((n,), alg.fn("elem", alg.sym(tag)), x.dtype, {"sorted_unique": True, "unique_of": x, "ident": ident})
+    I.__dict__.setdefault("unique_registry", []).append((U, x))
     if isinstance(x.val, Expr):
         I.facts.refine(U.val, I.facts.possible(x.val))  # the distinct values have the sign of the values
         xa = _single_atom(x.val)
@@ -2829,7 +2907,7 @@ EXT = {
     "numpy.isnan": np_classify("isnan"), "numpy.isinf": np_classify("isinf"), "numpy.isfinite": np_classify("isfinite"),
     "numpy.any": np_anyall("any"), "numpy.all": np_anyall("all"),
     "numpy.isclose": np_isclose(False), "numpy.allclose": np_isclose(True),
-    "numpy.ndim": np_ndim, "numpy.broadcast_shapes": np_broadcast_shapes,
+    "numpy.ndim": np_ndim, "numpy.size": np_size, "numpy.broadcast_shapes": np_broadcast_shapes,
     "numpy.sqrt": unary(alg.sqrt),
     "numpy.exp": unary(alg.exp),
     "numpy.log": unary(alg.log),
